@@ -47,7 +47,7 @@ class ClassWorld:
                 if isinstance(st, (ast.Assign, ast.AnnAssign)) and getattr(st, "value", None) is not None:
                     tgts = st.targets if isinstance(st, ast.Assign) else [st.target]
                     if isinstance(st.value, ast.Call) and dotted(st.value.func) not in (
-                            "re.compile", "dict", "tuple", "list", "set", "frozenset", "sorted", "zip", "range", "len", "max", "min", "sum", "str", "int"):
+                            "re.compile", "dict", "tuple", "list", "set", "frozenset", "sorted", "zip", "range", "len", "max", "min", "sum", "str", "int", "slice"):
                         continue  # objects built at import time (Config(), combinators, TypeVar...) stay opaque here
                     try:
                         self.ev.steps = 0
